@@ -1,4 +1,5 @@
 import MudProof.Properties.C01
+import MudProof.StepThm
 open Mud.C01
 #print axioms smallRoot_is_root
 #print axioms kinetic_shift
@@ -11,3 +12,4 @@ open Mud.C01
 #print axioms harmonic_shadow_step
 #print axioms harmonic_shadow_run
 #print axioms harmonic_energy_drift
+#print axioms Mud.StepThm.shStep_hop_energy
